@@ -69,9 +69,9 @@ SPEC = {
                   "one excluded; its oracle accepts the model; "
                   "sequences: the answer of the upload handler to a request and the viewer page for a configuration "
                   "version in any sequence of requests are those of that request alone (any permutation of concurrent "
-                  "requests gives each its own answer); Charts: a chart is shown as present iff a configured counter "
-                  "belongs to it, never absent when it draws an approved plain counter; that the configured stacks "
-                  "are not consulted is exhibited as finding 20 (class viewer-chart-stack). The models are tied to the code by differential execution against "
+                  "requests gives each its own answer); Charts (after fix c8e437d): a chart is shown as present iff a configured counter "
+                  "belongs to it or a configured stack has its name, never absent when it draws an approved counter "
+                  "or an approved stack; the chart oracle accepts the model. The models are tied to the code by differential execution against "
                   "the real createReport, validate, handleUpload, summary and newCounterFile.",
     "level_note": "Trusted: Coq kernel+VM, extraction, OCaml glue, Go harness/generators, the two helper processes "
                   "(injected exporter in package view; init hook in package main of telemetrygodev). "
